@@ -230,6 +230,16 @@ def cookie(s: str) -> str:
                 self._env.tick("load")
                 return fake
             return real_loader.load_module(self)
+
+        def exec_module(self, module):
+            if state["first"]:
+                state["first"] = False
+                self._env.tick("load")
+                module.BISTURI_PACKET_COOKIE = s
+                module.pack_impl = foreign_pack
+                module.unpack_impl = foreign_unpack
+                return None
+            return real_loader.exec_module(self, module)
     with env:
         bisturi.codegen.SourceFileLoader = lambda name, path: FakeFirst(env, name, path)
         cls = define(0)
